@@ -396,6 +396,7 @@ def obs_equal(op, impl, model, cfg):
 
 
 DOMAIN_NOTES = {}
+TRUNCATED = []
 DOMAINC_NOTES = {}
 
 
@@ -426,9 +427,13 @@ def episode_prefix(recs, i):
     return [r["op"] for r in recs[j:i + 1]]
 
 
-def compare(pid, scen, model, cfg, max_fail=5):
+def compare(pid, scen, model, cfg, max_fail=5, truncated=False):
     irecs, istats, iloose = parse_records(scen)
     mrecs, _, mloose = parse_records(model)
+    if truncated:
+        # the last record the runner printed may be incomplete: drop it, compare the prefix
+        mrecs = mrecs[:-1] if mrecs else mrecs
+        irecs = irecs[:len(mrecs)]
     fails = []
     n_ops = 0
     samples = []
@@ -593,11 +598,16 @@ def run_property(pid, tier, seed, replay=None):
             if rc != 0:
                 return name, Broken("harness run failed: %s" % " ".join(args), err), None
             if not model_ok:
-                return name, None, (sf, None)
+                return name, None, (sf, None, False)
             rc, err = runner_cmd(zob, sf, mf)
+            if rc == 124:
+                # the extracted model ran out of time on this job (it is orders of magnitude slower than
+                # the implementation): what it did answer is compared, the rest of the job is not explored
+                TRUNCATED.append(name)
+                return name, None, (sf, mf, True)
             if rc != 0:
                 return name, Broken("model runner failed on %s" % name, err), None
-            return name, None, (sf, mf)
+            return name, None, (sf, mf, False)
 
         with concurrent.futures.ThreadPoolExecutor(max_workers=NCPU) as ex:
             results = list(ex.map(one, jobs))
@@ -613,7 +623,7 @@ def run_property(pid, tier, seed, replay=None):
                     f.extend(Failure("property", pid, b, episode_prefix(irecs, i), r["obs"], None) for b in r["bangs"] if b.startswith(pid + " "))
                 n, smp = len(irecs), []
             else:
-                f, n, st, smp, irecs = compare(pid, files[0], files[1], cfg)
+                f, n, st, smp, irecs = compare(pid, files[0], files[1], cfg, truncated=files[2])
             failures.extend(f)
             total_ops += n
             stats_lines.extend(st)
@@ -687,6 +697,7 @@ def run_property(pid, tier, seed, replay=None):
         "known_findings_reported": sorted(known_printed),
         "compared_outside_closed_theorem_domain": DOMAIN_NOTES.get(pid, 0),
         "compared_outside_cache_theorem_domain": DOMAINC_NOTES.get(pid, 0),
+        "model_jobs_truncated_by_timeout": len(TRUNCATED),
         "explanation": cfg.get("explanation", ""),
     }
     level = "proof"
